@@ -50,6 +50,19 @@ pub fn run_dp(tier: &str, seed: u64, out: &mut dyn Write) {
     let mut r = Rng::new(seed ^ 0xD9);
     let thorough = tier == "thorough";
     let n = if thorough { 40_000 } else { 2_500 };
+    // programs in which a sibling bind overwrites an operand between its evaluation and its use
+    // (the recorded C01 finding), and nested binds that do not
+    for (src, cw) in [("(def (Report (x 1)) (c 2)) (when true (:= Report.x (+ c (:= c 10))) (report))", 5u32),
+                      ("(def (Report (x 1)) (c 2)) (when true (:= Report.x (+ (:= c 10) c)) (report))", 5),
+                      ("(def (Report (x 1)) (c 2)) (when true (:= Report.x (- (+ c 0) (:= c 1))) (report))", 5),
+                      ("(def (Report (x 1)) (c 2)) (when true (:= Report.x (+ (:= c 3) (:= c 4))) (report))", 5),
+                      ("(def (Report (x 1)) (c true)) (when true (:= Report.x (if c (+ 1 (+ 2 3)))) (:= c false) (report))", 5)] {
+        if let Some((inst, _)) = install_hex(src.as_bytes(), 77) {
+            let cp = changeprog::Msg { sid: 1, program_uid: 77, num_fields: 0, fields: vec![] };
+            let cpb = serialize::serialize(&cp).unwrap();
+            emit_case(out, src, &format!("M{} N1,2,- M{} P1,1,1,1,1,1,1,0,1,1,1,1,1,{:x},c8,1 T2000 I G T3000 I G", inst, hex(&cpb), cw));
+        }
+    }
     let mut done = 0;
     while done < n {
         let (src, vars) = gen_prog(&mut r, 3);
